@@ -59,7 +59,7 @@ for p in props:
 
 m = {
  "version": 1,
- "setup_cmd": "python3 tools/gen_schema.py && python3 tools/gen_sql.py && cd lean && lake build SpowtdModel driver SchemaTie SqlTie && cd .. && /venv/bin/python -c \"from harness import common; import sys; r = common.audit([]); print(r['problems']); sys.exit(0 if r['ok'] else 1)\"",
+ "setup_cmd": "python3 tools/gen_schema.py && python3 tools/gen_sql.py && python3 tools/gen_formulas.py && cd lean && lake build SpowtdModel driver SchemaTie SqlTie FormulaTie && cd .. && /venv/bin/python -c \"from harness import common; import sys; r = common.audit([]); print(r['problems']); sys.exit(0 if r['ok'] else 1)\"",
  "hooks": {"guard": "SPOWTD_VERIF", "enable": "no source hooks: the harness instruments sqlite3/scipy inside its own process (SPOWTD_VERIF=1 is set but read by nothing in /repo)",
            "baseline_off_cmd": "cd /repo && /venv/bin/python -m pytest -ra -q -p no:cacheprovider --timeout=900 --continue-on-collection-errors",
            "source_commits": [], "add_only": True},
